@@ -465,6 +465,7 @@ class Executor:
         self.seed = seed
         self.map_order_all = False
         self.max_paths = 200000
+        self.max_path_instrs = 3000000
         self.init_done = False
         self.global_snapshot = None
         self.called = set()
@@ -492,6 +493,7 @@ class Executor:
         self.depth = 0
         self.pathcond = []
         self.uf_cache = {}
+        self.path_instrs = 0
 
     def fresh(self, name, w):
         self.fresh_n += 1
@@ -864,6 +866,9 @@ class Executor:
                 if op == 'Phi':
                     continue
                 self.stats.instrs += 1
+                self.path_instrs += 1
+                if self.path_instrs > self.max_path_instrs:
+                    raise Unsupported('instruction budget exceeded in ' + fn['name'])
                 try:
                     r = self.step(fr, ins, op)
                 except GoPanic as gp:
